@@ -304,3 +304,54 @@ def diploid_missing():
 
 
 S3["diploid_missing"] = diploid_missing
+
+
+def swap_child():
+    """node 3 swaps child 1 for child 2 at position 5 (never unary: remove+insert coincide)."""
+    return _ts(10, [(1, 0)] * 3 + [(0, 1), (0, 2)],
+               [(0, 10, 3, 0), (0, 5, 3, 1), (5, 10, 3, 2), (0, 5, 4, 2), (5, 10, 4, 1),
+                (0, 10, 4, 3)],
+               [2, 7], [(0, 3), (1, 1)])
+
+
+def three_pieces():
+    """node 3 is present on [0,3), [5,7) and [9,12) (three disjoint pieces), with a mutation in
+    each piece; node 4 replaces it in between."""
+    e = []
+    for l, r in ((0, 3), (5, 7), (9, 12)):
+        e += [(l, r, 3, 0), (l, r, 3, 1), (l, r, 5, 3), (l, r, 5, 2)]
+    for l, r in ((3, 5), (7, 9)):
+        e += [(l, r, 4, 0), (l, r, 4, 2), (l, r, 5, 4), (l, r, 5, 1)]
+    return _ts(12, [(1, 0)] * 3 + [(0, 1), (0, 1.5), (0, 3)], e,
+               [1, 4, 6, 10], [(0, 3), (1, 4), (2, 3), (3, 3)])
+
+
+def isolated_sample_mutation():
+    """sample 2 is isolated on [5,10) and carries a mutation there; a site lies beyond the
+    last edge-covered position is not possible in tskit, but the last tree has an isolated node."""
+    return _ts(10, [(1, 0)] * 3 + [(0, 1), (0, 2)],
+               [(0, 10, 3, 0), (0, 10, 3, 1), (0, 5, 4, 3), (0, 5, 4, 2)],
+               [2, 7], [(0, 3), (1, 2)])
+
+
+def trailing_gap():
+    """no edges at all on [8,10), and a site with a mutation on sample 0 at 9."""
+    return _ts(10, [(1, 0)] * 3 + [(0, 1), (0, 2)],
+               [(0, 8, 3, 0), (0, 8, 3, 1), (0, 8, 4, 3), (0, 8, 4, 2)],
+               [2, 9], [(0, 3), (1, 0)])
+
+
+S2["swap_child"] = swap_child
+S2["three_pieces"] = three_pieces
+S2["isolated_sample_mutation"] = isolated_sample_mutation
+S2["trailing_gap"] = trailing_gap
+
+
+def edgeless_sample_mutation():
+    """sample 3 takes part in no edge at all (missing everywhere) but carries a mutation."""
+    return _ts(10, [(1, 0)] * 4 + [(0, 1), (0, 2)],
+               [(0, 10, 4, 0), (0, 10, 4, 1), (0, 10, 5, 4), (0, 10, 5, 2)],
+               [2, 7], [(0, 4), (1, 3)])
+
+
+S2["edgeless_sample_mutation"] = edgeless_sample_mutation
